@@ -1,0 +1,58 @@
+//go:build verif
+
+// Contracts for package open_game_manager, read by /verif/govc (comment-only file).
+// syncsaga.ReadyGroup is an external concurrent component: calls on it are recorded in the ghost
+// call log (nothing is claimed about when its callbacks run); the bookkeeping around it is proved.
+
+package open_game_manager
+
+//@ devirt OpenGameManager = (*openGameManager)
+
+//@ spec OgmWF(m) = m != nil && m.state != nil && m.rg != nil && m.state.Participants != nil && 0 <= len(m.state.Participants) && len(m.state.Participants) <= 10
+//@     && all(id, indom(m.state.Participants, id) ==> m.state.Participants[id] != nil && m.state.Participants[id].ID == id)
+//@ spec n0() = old(ncalls())
+//@ spec noCall() = ncalls() == old(ncalls())
+
+//@ func (*openGameManager).readyGroupResetParticipants
+//@   inline
+//@ func (*openGameManager).readyGroupAddParticipant
+//@   inline
+//@ func (*openGameManager).readyGroupReady
+//@   inline
+//@ func (*openGameManager).GetState
+//@   inline
+
+//@ func (*openGameManager).Setup
+//@   property C09
+//@   requires OgmWF(m) && 0 <= len(participants) && len(participants) <= 10
+//@   modifies m.state.GameCount, m.state.Participants, log
+//@   loop 0 unroll 10
+//@   ensures game-count: m.state.GameCount == gameCount
+//@   ensures exactly-the-expected: OgmWF(m) && fresh(m.state.Participants) && len(m.state.Participants) == len(participants)
+//@             && all(id, indom(m.state.Participants, id) <==> indom(participants, id))
+//@   ensures nobody-ready-yet: all(id, indom(participants, id) ==> fresh(m.state.Participants[id]) && m.state.Participants[id].Index == participants[id] && !m.state.Participants[id].IsReady)
+//@   ensures previous-stopped-first: callfn(old(ncalls())) == "(*syncsaga.ReadyGroup).Stop" && callrecv(old(ncalls())) == ref(m.rg)
+//@             && callfn(old(ncalls()) + 1) == "(*syncsaga.ReadyGroup).OnCompleted" && callfn(old(ncalls()) + 2) == "(*syncsaga.ReadyGroup).ResetParticipants"
+//@   ensures started-last: ncalls() == old(ncalls()) + 4 + len(participants) && callfn(ncalls() - 1) == "(*syncsaga.ReadyGroup).Start" && callrecv(ncalls() - 1) == ref(m.rg)
+//@   ensures all-added-unready: forall(k, 0, 10, k < len(participants) ==> callfn(old(ncalls()) + 3 + k) == "(*syncsaga.ReadyGroup).Add" && !callargb(old(ncalls()) + 3 + k, 0)
+//@             && any(id, indom(participants, id) && callarg(old(ncalls()) + 3 + k, 0) == participants[id]))
+
+//@ func (*openGameManager).Ready
+//@   property C09
+//@   returns err
+//@   requires OgmWF(m)
+//@   modifies forall(k, 0, 1, m.state.Participants[participantID].IsReady), log
+//@   ensures unknown-rejected: !indom(m.state.Participants, participantID) ==> err == ErrParticipantNotFound && noCall()
+//@   ensures known-marked: indom(m.state.Participants, participantID) ==> err == nil && m.state.Participants[participantID].IsReady
+//@             && ncalls() == old(ncalls()) + 1 && callfn(old(ncalls())) == "(*syncsaga.ReadyGroup).Ready" && callarg(old(ncalls()), 0) == m.state.Participants[participantID].Index
+//@   ensures nothing-else-changes: all(id, id != participantID && indom(m.state.Participants, id) ==> m.state.Participants[id].IsReady == old(m.state.Participants[id].IsReady))
+//@   ensures repeat-is-noop-on-state: old(indom(m.state.Participants, participantID) && m.state.Participants[participantID].IsReady) ==> m.state.Participants[participantID].IsReady
+
+//@ func (*openGameManager).readyGroupOnCompleted
+//@   property C09
+//@   requires OgmWF(m)
+//@   modifies family("open_game_manager.OpenGameParticipant.IsReady"), log
+//@   loop 0 unroll 10
+//@   ensures everyone-ready: all(id, indom(m.state.Participants, id) ==> m.state.Participants[id].IsReady)
+//@   ensures reports-this-setup-once: ncalls() == old(ncalls()) + 1 && callfn(old(ncalls())) == "callback:onOpenGameReady"
+//@             && callarg(old(ncalls()), 1) == m.state.GameCount && callarg(old(ncalls()), 2) == ref(m.state.Participants)
